@@ -79,6 +79,7 @@ var Registry = map[string]func(*ev.Run){
 	"C14": func(r *ev.Run) {
 		RunScenarioFamily(r, "c14", len(C14Scenarios(pairTier(r))), "all ordered parameter lists of <=k distinct roles {source A, second source B, context by line, context by regex, update target, converter-typed} x all result lists of length <=r over {T, error, int, named error-like interface} for converter methods and goverter:variables function variables (named and unnamed parameters), and for the custom-function use sites extend / map|FUNC / default / struct-method source over {source, second source, context, converter} x results; an independent role classifier predicts accept/reject; accepted ones are generated by the CLI, must compile against the declared signature (parameter order) and are executed against the plan")
 	},
+	"C09": RunC09,
 	"C15": RunC15,
 	"C16": RunHistories,
 	"C17": RunC17,
